@@ -4,19 +4,19 @@ import json
 P = {
  'C01': ('exploration','real tool on seeded random setup files of every generator profile plus a fixed list of the faulty inputs of C14; every exit-0 output judged by a gofmt fixpoint monitor and go/types in its package','E2 toolrun + E3 outmon'),
  'C02': ('exploration','generated functions compiled with instrumented callbacks and executed on fixed + random valuations; destination compared leaf by leaf with a model built from the observed plan; static monitor for conversions without :typecast; operands dumped before/after; panics attributed','E5 execmon'),
- 'C03': ('exploration','real tool on in-convention layout and broad scenarios; oracle = exit 0 and function multiset equals the interface methods','E1 layout generator + E3'),
+ 'C03': ('exploration','real tool on in-convention layout and broad scenarios plus a fixed corpus of valid uses of imported functions (dot import, blank import, same-named imports); oracle = exit 0 and function multiset equals the interface methods','E1 layout generator + E3'),
  'C04': ('exploration','independent reference matcher over go/types vs the observed plan per destination leaf, on the complete type-pair matrix (thorough) and random struct pairs; M3 opt-in monitor','E4 refmodel + E3'),
  'C05': ('exploration','covering-relation monitor over generated bodies (reachable leaves recomputed from go/types) + positioned stderr warning monitor','E4 leaves + E3'),
  'C06': ('exploration','reference model per notation-governed leaf vs observed plan, and dynamic provenance: generated code executed, stored value compared with the model\'s source evaluated on the inputs','E4 + E5'),
  'C07': ('fault_enumeration','every error-capable call site of every executed function is made to fail (1st and 2nd occurrence); returned error identity and call-trace prefix checked against the fault-free reference trace; static err-wiring monitor','E5 with fault plans'),
  'C08': ('exploration','complete enumeration of the 2048 signature shapes; go/types signature of each generated function compared with the documented shape; illegal shapes must be rejected; legal ones executed for copy direction','E1 shapes + E3 + E5'),
  'C09': ('exploration','metamorphic monitors over related runs: R1 effective-settings-at-method-level equivalence, R2 deletion of all other methods/interfaces, R3 reference model with effective settings','E2 + E4'),
- 'C10': ('exploration','instrumented hooks record call order, operand identities and snapshots and mutate the destination; offline checker over the recorded traces','E5 with mutating hooks'),
- 'C12': ('fault_enumeration','histories of (edit, damage output, run) steps and every truncation point / corruption class of the output left in place, over nine invocation forms (incl. -out elsewhere, -out without extension, through a symbolic link, -dry -print, -log); exit status and bytes compared with the clean-path run; disagreements confirmed by an identical second run','E2 histories'),
+ 'C10': ('exploration','instrumented hooks record call order, operand identities and snapshots and mutate the destination; offline checker over the recorded traces; acceptance monitors over fixed valid and ill-fitting hook corpora (incl. :reverse in both parameter orders)','E5 with mutating hooks'),
+ 'C12': ('fault_enumeration','histories of (edit, damage output, run) steps and every truncation point / corruption class of the output left in place, over ten invocation forms (incl. $GOFILE, -out elsewhere, -out without extension, through a symbolic link, -dry -print, -log); exit status and bytes compared with the clean-path run; disagreements confirmed by an identical second run','E2 histories'),
  'C13': ('exploration','repeated fresh processes with varied environment (incl. TMPDIR on another file system), cwd and path spelling (incl. through a symbolic link), spaced in time for -log runs, serial and concurrent; byte-wise comparison of exit status, diagnostics and output within and across groups','E2 repetition'),
  'C15': ('fault_enumeration','whole-tree snapshot diff + strace-attributed write-class syscalls of the tool itself, over inputs x flags x output-path states (absent, present, immutable, directory, missing parent, unwritable)','E6 fsmon'),
  'C16': ('exploration','slice headers and elements observed after execution, mutation of source/destination elements to expose aliasing, a type-directed walk of both operands comparing backing arrays, nil/empty/shared-backing-array values; static form monitor','E5 with slice mutation'),
- 'C18': ('exploration','complete enumeration of flag combinations x input spellings x -out targets on accepted inputs; stdout/files/exit observed at the process boundary','E2 enumeration'),
+ 'C18': ('exploration','complete enumeration of flag combinations x input spellings x -out targets on accepted inputs, plus failing-run pairs with/without -log on rejected inputs; stdout/files/exit observed at the process boundary','E2 enumeration'),
  'C19': ('exploration','in-process probe of the exported matcher API against the standard library as oracle: exhaustive small scope, grammar-generated regexps, query histories on one matcher; plus :skip patterns end to end through the real tool, skip decision per destination path of the generated functions','E7 optprobe'),
  'C11': ('exploration','structural diff monitor between setup file and output (declarations, imports, unique-id comments, directives)','E3 file structure'),
  'C14': ('exploration','grammar-based fuzzing of notations, referenced callbacks and method signatures; process-boundary oracle: terminated, exit in {0,1}, no runtime crash text, positioned diagnostic, no dropped method','E2 fuzz'),
